@@ -190,6 +190,7 @@ def _tu(model, needed, extra_contracts, body):
     tu.add(VSS_GHOSTS)
     tu.add('#include "vss.h"')
     start = len(tu.lines)
+    tu.tags = {}          # tags of the (replaced) generated contracts are not obligations of this job
     tu.add(extra_contracts)
     # tags written inline as /*TAG ...*/ in generated contract text
     import re
